@@ -409,3 +409,17 @@ Example add_bubbles_overlap_example :
   forallb (fun w => mem_seq (fst w) (map fst (bubble_spec ex_bb_ref ex_bb_vs))) (lang (add_bubbles ex_bb_ref ex_bb_vs) 0) = true /\
   In ([65;84;71;84;65;65], [1]) (lang (add_bubbles ex_bb_ref ex_bb_vs) 0).
 Proof. vm_compute. repeat split; try reflexivity. right. right. right. right. right. right. right. right. now left. Qed.
+
+(* membership without enumeration: walking a graph along a string (AbsGraph.accepts) decides membership in its
+   string language; for the bubble graph of a well-formed sorted record list it decides "s is a haplotype sequence".
+   The stage checks of fusion / alternative-splicing / circRNA graphs use it on the derived backbones. *)
+Theorem accepts_iff_lang : forall g fuel n s,
+  accepts g fuel n s = true <-> In s (strings (lang_fin g (sink g) fuel n)).
+Proof. exact accepts_spec. Qed.
+Print Assumptions accepts_iff_lang.
+
+Theorem accepts_bubbles : forall ref vs s, bb_wf ref vs = true -> bb_sorted vs = true ->
+  (accepts (add_bubbles ref vs) (length (add_bubbles ref vs)) 0 s = true <->
+   exists m, length m = length vs /\ pairwise false (select m vs) = true /\ s = apply_hap ref (select m vs)).
+Proof. exact accepts_bubbles_lemma. Qed.
+Print Assumptions accepts_bubbles.
